@@ -323,7 +323,7 @@ def shellNameJob (lower : String → String) (j : Job) : List Diag :=
 def ruleShellName (lower : String → String) (w : Workflow) : List Diag :=
   checkShellName lower .any (defaultsShell w.defaults) ++ (jobsOf w).flatMap (shellNameJob lower)
 
-/-! ### rule_runner_label.go (for a file linted without configuration: no custom labels) -/
+/-! ### rule_runner_label.go (the labels of the configuration file come in through `LabelCfg`; empty without configuration) -/
 
 /-- `strings.EqualFold(l, p)` for an ASCII lower-case pattern `p`: only ASCII letters, U+017F (ſ) and U+212A (K) fold to ASCII letters -/
 def foldAscii (s : String) : String :=
@@ -331,13 +331,31 @@ def foldAscii (s : String) : String :=
     if c.toNat = 0x17F then 's' else if c.toNat = 0x212A then 'k'
     else if 'A' ≤ c ∧ c ≤ 'Z' then Char.ofNat (c.toNat + 32) else c)
 
+/-- the labels of the configuration file (`self-hosted-runner.labels`, glob patterns) and Go's `path.Match` on them:
+`pmatch pattern label` = `none` when the pattern is malformed -/
+structure LabelCfg where
+  known : List String := []
+  pmatch : String → String → Option Bool := fun _ _ => some false
+
+/-- the loop over the configured label patterns in `verifyRunnerLabel`: `none` = no pattern matches, `some []` = one does,
+`some [d]` = a malformed pattern was met first -/
+def knownLoop (lc : LabelCfg) (label : Str) : List String → Option (List Diag)
+  | [] => none
+  | k :: rest =>
+    match lc.pmatch k label.value with
+    | none => some [⟨label.pos, "runner-label", "label-pattern-invalid", [k]⟩]
+    | some true => some []
+    | some false => knownLoop lc label rest
+
 /-- `verifyRunnerLabel`: the compatibility set (0 = `compatInvalid`) and the diagnostic for an unknown label -/
-def verifyRunnerLabel (lower : String → String) (label : Str) : Nat × List Diag :=
+def verifyRunnerLabel (lower : String → String) (label : Str) (lc : LabelCfg := {}) : Nat × List Diag :=
   match AL.Gen.runnerCompats.find? (·.1 = lower label.value) with
   | some (_, c) => (c, [])
   | none =>
     if AL.Gen.runnerOtherLabels.any (fun p => foldAscii label.value = p) then (0, [])
-    else (0, [⟨label.pos, "runner-label", "label-unknown", [label.value]⟩])
+    else match knownLoop lc label lc.known with
+      | some ds => (0, ds)
+      | none => (0, [⟨label.pos, "runner-label", "label-unknown", [label.value]⟩])
 
 /-- `tryToGetLabelsInMatrix`: `${{ matrix.<prop> }}` resolved against the rows and the include entries of a literal matrix -/
 def labelsInMatrix (lower : String → String) (label : Str) (m : Option Matrix) : List Str :=
@@ -412,33 +430,34 @@ def checkCombiCompat (compats : Compats) (cls : List (Nat × Str)) : Compats × 
   (compats', checked.flatMap (·.2))
 
 /-- `checkLabelAndConflict` -/
-def checkLabelAndConflict (lower : String → String) (m : Option Matrix) (acc : Compats × List Diag) (l : Str) : Compats × List Diag :=
+def checkLabelAndConflict (lc : LabelCfg) (lower : String → String) (m : Option Matrix) (acc : Compats × List Diag) (l : Str) : Compats × List Diag :=
   if containsExpr l then
     let ss := labelsInMatrix lower l m
-    let vs := ss.map fun s => (verifyRunnerLabel lower s, s)
+    let vs := ss.map fun s => (verifyRunnerLabel lower s lc, s)
     let r := checkCombiCompat acc.1 (vs.map fun x => (x.1.1, x.2))
     (r.1, acc.2 ++ vs.flatMap (·.1.2) ++ r.2)
   else
-    let v := verifyRunnerLabel lower l
+    let v := verifyRunnerLabel lower l lc
     let r := checkCompat acc.1 v.1 l
     (r.1, acc.2 ++ v.2 ++ r.2)
 
 /-- `VisitJobPre` -/
-def runnerLabelJob (lower : String → String) (j : Job) : List Diag :=
+def runnerLabelJob (lower : String → String) (j : Job) (lc : LabelCfg := {}) : List Diag :=
   match j.runsOn with
   | none => []
   | some r =>
     let m := match j.strategy with | some s => s.matrix | none => none
     match r.labels.getD [] with
     | [l] =>
-      if containsExpr l then (labelsInMatrix lower l m).flatMap fun s => (verifyRunnerLabel lower s).2
-      else (verifyRunnerLabel lower l).2
+      if containsExpr l then (labelsInMatrix lower l m).flatMap fun s => (verifyRunnerLabel lower s lc).2
+      else (verifyRunnerLabel lower l lc).2
     | ls =>
       match r.labelsExpr with
-      | some e => (checkLabelAndConflict lower m ([], []) e).2
-      | none => (ls.foldl (checkLabelAndConflict lower m) ([], [])).2
+      | some e => (checkLabelAndConflict lc lower m ([], []) e).2
+      | none => (ls.foldl (checkLabelAndConflict lc lower m) ([], [])).2
 
-def ruleRunnerLabel (lower : String → String) (w : Workflow) : List Diag := (jobsOf w).flatMap (runnerLabelJob lower)
+def ruleRunnerLabel (lower : String → String) (w : Workflow) (lc : LabelCfg := {}) : List Diag :=
+  (jobsOf w).flatMap (fun j => runnerLabelJob lower j lc)
 
 /-! ### rule_deprecated_commands.go -/
 
@@ -730,8 +749,8 @@ def stableSort (l : List Diag) : List Diag := l.foldl (fun acc x => insertStable
 def ofPErr (e : AL.PW.PErr) : Diag := ⟨e.pos, "syntax-check", e.code, e.args⟩
 
 /-- all diagnostics of the modelled rules, in the order of linter.go's rule list -/
-def rules (lower : String → String) (isNum urlOk : String → Bool) (w : Workflow) : List Diag :=
-  ruleMatrix w ++ ruleCredentials w ++ ruleShellName lower w ++ ruleRunnerLabel lower w ++ ruleEvents lower isNum w ++ ruleJobNeeds lower w ++
+def rules (lower : String → String) (isNum urlOk : String → Bool) (w : Workflow) (lc : LabelCfg := {}) : List Diag :=
+  ruleMatrix w ++ ruleCredentials w ++ ruleShellName lower w ++ ruleRunnerLabel lower w lc ++ ruleEvents lower isNum w ++ ruleJobNeeds lower w ++
   ruleAction urlOk w ++ ruleEnvVar w ++ ruleId lower w ++ ruleGlob w ++ rulePermissions w ++ ruleWorkflowCall w ++ ruleDeprecatedCommands w ++ ruleIfCond w
 
 /-- `Linter.check` restricted to the parser and the modelled rules -/
